@@ -191,7 +191,7 @@ func Cancellation(d *fw.Driver, res *fw.Result, seed int64, thorough bool) error
 		rounds = 80
 	}
 	base := 700000
-	for round := 0; round < rounds; round++ {
+	for round := 0; round < rounds && !res.Enough(); round++ {
 		e, err := scen.NewEnv(seed+int64(round)*19, 2)
 		if err != nil {
 			return err
